@@ -1468,7 +1468,13 @@ func (ro *RedisOutput) bisyncStartPoint(ctx context.Context, runIDs []string) (S
 			// Recovery may consume the first post-snapshot journal records to rebuild
 			// the durable frontier. Once that frontier is selected, those journal
 			// keys are stale and should not survive as residual metadata.
-			ro.cleanupRecoveredBisyncCommitRecords(cli, checkpointName, frontier, records)
+			// the journal records are the only durable trace of the rebuilt frontier : persist it before
+			// they are removed, else a second start without new traffic falls back to the older snapshot
+			if err := checkpoint.SaveBisyncFrontierSnapshot(cli, snapshotKey, frontier); err != nil {
+				ro.logger.Warnf("save rebuilt bisync frontier failed, keep journal records: checkpoint(%s), frontierSeq(%d), err(%v)", checkpointName, frontier.UnitSeq, err)
+			} else {
+				ro.cleanupRecoveredBisyncCommitRecords(cli, checkpointName, frontier, records)
+			}
 			ro.logger.Infof("bisync startpoint parallel selected: checkpoint(%s), start(%+v), seq(%d)", checkpointName, sp, frontier.UnitSeq)
 			return sp, frontier.UnitSeq, true, nil
 		}
